@@ -88,13 +88,13 @@ def run():
     uni, ust = common.tlc_eval_json("Dump_Universe", cfg="Dump_Universe_Q" if QUICK else "Dump_Universe_T")
     chk.add_tlc(ust)
     from harness.props.c01 import decorate_sites
-    pick = rng.sample(uni, 500 if QUICK else 6000)
+    pick = rng.sample(uni, 500 if QUICK else 20000)
     for a in pick:
         a = decorate_sites(a, rng)
         a["muts"] = [m for m in a["muts"]]
         cases.append(drive(a, rng))
     nuni = len(cases)
-    for i in range(2000 if QUICK else 30000):
+    for i in range(2000 if QUICK else 120000):
         a = gen.random_abstract(rng, N=rng.randint(2, 8), K=rng.randint(1, 5), max_edges=14, nsites=3, nmuts=4)
         cases.append(drive(a, rng))
     for c in [c for c in cases if "error" in c]:
